@@ -547,7 +547,7 @@ func ReachableAvoiding(body *ast.BlockStmt, target ast.Node, excl func(cond ast.
 		seen[b] = true
 		var cond ast.Expr
 		if len(b.Succs) == 2 && len(b.Nodes) > 0 {
-			cond, _ = b.Nodes[len(b.Nodes)-1].(ast.Expr)
+			cond = core.BlockCond(b)
 		}
 		for i, s := range b.Succs {
 			if cond != nil && excl(cond, i == 0) {
